@@ -55,6 +55,189 @@ impl AsyncRead for Scripted {
     }
 }
 
+/// AsyncWrite accepting a scripted number of bytes per call (then everything), optionally as a
+/// transport with real vectored writes, optionally answering Pending before a call.
+struct ScriptedSink {
+    got: Vec<u8>,
+    accept: Vec<usize>,
+    calls: usize,
+    vectored: bool,
+    pending: bool,
+    armed: bool,
+    flushed_at: Vec<usize>,
+}
+
+impl ScriptedSink {
+    fn new(accept: Vec<usize>, vectored: bool, pending: bool) -> Self {
+        ScriptedSink { got: Vec::new(), accept, calls: 0, vectored, pending, armed: false, flushed_at: Vec::new() }
+    }
+    fn budget(&mut self, cx: &mut Context<'_>) -> Option<usize> {
+        if self.pending && !self.armed && self.calls % 2 == 1 {
+            self.armed = true;
+            cx.waker().wake_by_ref();
+            return None;
+        }
+        self.armed = false;
+        let b = self.accept.get(self.calls).copied().unwrap_or(usize::MAX);
+        self.calls += 1;
+        Some(b.max(1))
+    }
+}
+
+impl tokio::io::AsyncWrite for ScriptedSink {
+    fn poll_write(mut self: Pin<&mut Self>, cx: &mut Context<'_>, buf: &[u8]) -> Poll<std::io::Result<usize>> {
+        if buf.is_empty() {
+            return Poll::Ready(Ok(0));
+        }
+        let Some(b) = self.budget(cx) else { return Poll::Pending };
+        let n = b.min(buf.len());
+        self.got.extend_from_slice(&buf[..n]);
+        Poll::Ready(Ok(n))
+    }
+    fn poll_write_vectored(mut self: Pin<&mut Self>, cx: &mut Context<'_>, bufs: &[std::io::IoSlice<'_>]) -> Poll<std::io::Result<usize>> {
+        if !self.vectored {
+            // what tokio's default does: the first non-empty slice only
+            let first = bufs.iter().find(|b| !b.is_empty()).map(|b| &**b).unwrap_or(&[]);
+            return self.poll_write(cx, first);
+        }
+        let total: usize = bufs.iter().map(|b| b.len()).sum();
+        if total == 0 {
+            return Poll::Ready(Ok(0));
+        }
+        let Some(b) = self.budget(cx) else { return Poll::Pending };
+        let mut left = b.min(total);
+        let n = left;
+        for s in bufs {
+            let k = left.min(s.len());
+            self.got.extend_from_slice(&s[..k]);
+            left -= k;
+            if left == 0 {
+                break;
+            }
+        }
+        Poll::Ready(Ok(n))
+    }
+    fn is_write_vectored(&self) -> bool {
+        self.vectored
+    }
+    fn poll_flush(mut self: Pin<&mut Self>, _cx: &mut Context<'_>) -> Poll<std::io::Result<()>> {
+        let n = self.got.len();
+        self.flushed_at.push(n);
+        Poll::Ready(Ok(()))
+    }
+    fn poll_shutdown(self: Pin<&mut Self>, _cx: &mut Context<'_>) -> Poll<std::io::Result<()>> {
+        Poll::Ready(Ok(()))
+    }
+}
+
+/// The streaming writer over transports that take the bytes in arbitrary pieces.
+async fn writer_part(ctx: &Ctx, rng: &mut Rng) {
+    let seqs: Vec<Vec<Vec<u8>>> = vec![
+        vec![vec![]],
+        vec![vec![1]],
+        vec![vec![1, 2, 3]],
+        vec![vec![], vec![9]],
+        vec![vec![7, 8], vec![], vec![1, 2, 3, 4, 5]],
+        vec![(1..=20).collect()],
+        vec![vec![0xa0; 10], vec![0xa1; 10], vec![0xa2; 10]],
+    ];
+    let max_first = ctx.pick(6usize, 9usize);
+    for mode in [FrameMode::Handshake, FrameMode::Distribution] {
+        let fr = MessageFramer::new(mode);
+        for msgs in &seqs {
+            let mut expect = Vec::new();
+            for m in msgs {
+                expect.extend(fr.frame_message(m));
+            }
+            // all scripts (a1, a2, a3) of accepted byte counts for the first three calls, then a cycle
+            let mut scripts: Vec<Vec<usize>> = Vec::new();
+            for a in 1..=max_first {
+                for b in 1..=max_first {
+                    for c in [1usize, 2, 3, 5, 1000] {
+                        scripts.push(vec![a, b, c]);
+                    }
+                }
+                scripts.push(std::iter::repeat(a).take(200).collect()); // a bytes per call throughout
+            }
+            for _ in 0..ctx.pick(20, 200) {
+                scripts.push((0..60).map(|_| 1 + rng.below(7)).collect());
+            }
+            for script in &scripts {
+                for vectored in [false, true] {
+                    for pending in [false, true] {
+                        ctx.eval(1);
+                        let mut sink = ScriptedSink::new(script.clone(), vectored, pending);
+                        let mut failed = None;
+                        for m in msgs {
+                            if let Err(e) = fr.write_framed(&mut sink, m).await {
+                                failed = Some(e.to_string());
+                                break;
+                            }
+                        }
+                        ctx.class(&format!("write/{}/{}frames/first{}/{}{}", mode_name(mode), msgs.len(), script[0].min(9), if vectored { "vectored" } else { "plain" }, if pending { "/pending" } else { "" }));
+                        if let Some(e) = failed {
+                            ctx.viol(
+                                &format!("C05:write_framed-error:{}", mode_name(mode)),
+                                "write_framed failed on a transport that takes the bytes in pieces",
+                                json!({"mode": mode_name(mode), "script": script.iter().take(8).collect::<Vec<_>>(), "vectored": vectored, "error": e}),
+                            );
+                        } else if sink.got != expect {
+                            ctx.viol(
+                                &format!("C05:writers-differ:short-writes:{}", mode_name(mode)),
+                                "the streaming writer over a transport accepting the bytes in pieces does not produce the bytes of the one-shot framing function",
+                                json!({"mode": mode_name(mode), "accepted_per_call": script.iter().take(8).collect::<Vec<_>>(), "vectored": vectored, "pending": pending,
+                                       "message_lengths": msgs.iter().map(|m| m.len()).collect::<Vec<_>>(), "wire": hex_cap(&sink.got, 48), "want": hex_cap(&expect, 48)}),
+                            );
+                        }
+                    }
+                }
+            }
+        }
+    }
+    // end to end through an in-memory pipe that fills up: writer task and reader task, every small capacity
+    for mode in [FrameMode::Handshake, FrameMode::Distribution] {
+        for cap in 1..=ctx.pick(24usize, 64usize) {
+            let nmsg = 6;
+            let msgs: Vec<Vec<u8>> = (0..nmsg).map(|i| vec![0xb0 + i as u8; *rng.pick(&[0usize, 1, 3, 10, 14, 31])]).collect();
+            let (mut a, mut b) = tokio::io::duplex(cap);
+            let to_write = msgs.clone();
+            let w = tokio::spawn(async move {
+                let fr = MessageFramer::new(mode);
+                for m in &to_write {
+                    if fr.write_framed(&mut a, m).await.is_err() {
+                        return false;
+                    }
+                }
+                let _ = a.shutdown().await;
+                true
+            });
+            let de = MessageDeframer::new(mode);
+            ctx.class(&format!("pipe/{}/cap{}", mode_name(mode), cap.min(32)));
+            for (i, want) in msgs.iter().enumerate() {
+                ctx.eval(1);
+                match tokio::time::timeout(std::time::Duration::from_secs(10), de.read_framed(&mut b)).await {
+                    Ok(Ok(got)) if &got == want => {}
+                    Ok(other) => {
+                        ctx.viol(
+                            &format!("C05:pipe:frames-differ:{}", mode_name(mode)),
+                            "frames written through a pipe that fills up are not read back as written",
+                            json!({"mode": mode_name(mode), "pipe_capacity": cap, "frame": i, "message_lengths": msgs.iter().map(|m| m.len()).collect::<Vec<_>>(),
+                                   "got": match other { Ok(g) => hex_cap(&g, 32), Err(e) => e.to_string() }, "want": hex_cap(want, 32)}),
+                        );
+                        break;
+                    }
+                    Err(_) => {
+                        ctx.inconclusive("pipe read-back did not finish within 10 s");
+                        break;
+                    }
+                }
+            }
+            w.abort();
+            let _ = w.await;
+        }
+    }
+}
+
 fn prefix(mode: FrameMode, len: usize) -> Vec<u8> {
     match mode {
         FrameMode::Handshake => (len as u16).to_be_bytes().to_vec(),
@@ -392,13 +575,14 @@ async fn read_half_part(ctx: &Ctx, rng: &mut Rng) {
 }
 
 pub fn run(ctx: &Ctx) {
-    ctx.rule("cases = message sequences (lengths 0,1,2,255,256,65535,65536,... in both framing modes) written by both framing functions and read back under a scripted transport: ALL 2^(n-1) chunkings of every stream up to 11 (quick) / 15 (thorough) bytes with Pending between chunks, random cuts / 1-byte dribble / cuts around frame boundaries for long streams, over-long declared lengths (allocation measured), EOF at every offset inside a frame; plus the node's second read loop over a real loopback socket written in scripted slices; evaluations = frames read and judged; distinct = distinct (mode, frame-length classes, chunking style) combinations");
+    ctx.rule("cases = message sequences (lengths 0,1,2,255,256,65535,65536,... in both framing modes) written by both framing functions and read back under a scripted transport: ALL 2^(n-1) chunkings of every stream up to 11 (quick) / 15 (thorough) bytes with Pending between chunks, random cuts / 1-byte dribble / cuts around frame boundaries for long streams, over-long declared lengths (allocation measured), EOF at every offset inside a frame; the streaming writer over scripted write transports (every combination of 1..6 bytes accepted by the first two calls, fixed k bytes per call, random scripts; plain and truly vectored transports; Pending between calls) and through an in-memory pipe of every capacity 1..24 bytes against a concurrent reader; plus the node's second read loop over a real loopback socket written in scripted slices; evaluations = frames read and judged; distinct = distinct (mode, frame-length classes, chunking style) combinations");
     ctx.assume("independent framing model: big-endian length prefix (2 bytes handshake, 4 bytes distribution) followed by the data");
     let rt = tokio::runtime::Builder::new_current_thread().enable_all().build().expect("runtime");
     let mut rng = Rng::derive(ctx.seed, 5, 1);
     let r = guarded(|| {
         rt.block_on(async {
             deframer_part(ctx, &mut rng).await;
+            writer_part(ctx, &mut rng).await;
             read_half_part(ctx, &mut rng).await;
         })
     });
